@@ -11,18 +11,21 @@ import Bermuda.Spec.C16
 import Bermuda.Lemmas.Blend
 import Bermuda.Lemmas.BlendCore
 import Bermuda.Lemmas.BlendSpec
+import Bermuda.Lemmas.BlendBridge
 namespace Bermuda.Properties.C16
 open Bermuda Bermuda.Blend
 
 /-! ### 1. linear blending: the value -/
 
 /-- **linear_value.** A successful linear blend is the float array of the broadcast length `S`
-whose entry `s` is `Σ_j w_j · v_j[s]`, scalars and length-1 arrays being broadcast. -/
+whose entry `s` is `Σ_j w_j · v_j[s]`, scalars and length-1 arrays being broadcast; every input row has length
+exactly 1 or exactly `S`, so no entry read by `bcast` (`getD … 0`) is a default. -/
 theorem linear_value {vals : List Val} {w : List Rat} {out : Val}
     (h : linearBlend vals w = .ok out) :
     ∃ rows, mapE rowOf vals = .ok rows ∧
       out = .arr false [maxLen rows] (linearOut rows w (maxLen rows)) ∧
       (linearOut rows w (maxLen rows)).length = maxLen rows ∧
+      (∀ r ∈ rows, r.length = 1 ∨ r.length = maxLen rows) ∧
       ∀ s (hs : s < (linearOut rows w (maxLen rows)).length),
         (linearOut rows w (maxLen rows))[s] = dot w (rows.map (bcast · s)) :=
   linear_value_core h
@@ -239,6 +242,31 @@ theorem missing_coordinate_refused {idxs : List (List (Coord × Cell))} {k : Coo
     (h : ∃ d ∈ idxs, lookup d k = none) : gatherCells idxs k = .error .valueError :=
   gatherCells_missing h
 
+/-- **blend_refuses_missing_coord.** Lifted to `blend`: if some input triangle lacks the coordinate (metadata,
+period, evaluation date, previous evaluation date) of a cell of the canonical first triangle, `blend` returns an
+error — for every weight form, method and index vector. (`missing_coordinate_refused` gives the class,
+`ValueError`, when that cell's turn comes; an earlier cell's failure may pre-empt it.) -/
+theorem blend_refuses_missing_coord {t0 t : List Cell} {rest : List (List Cell)} {w : Weights}
+    {method : String} {idx : Nat → String → List Nat} {c : Cell}
+    (hnd : (t0.map Cell.coord).Nodup) (hs : t0.Pairwise (fun a b => Cell.le a b))
+    (ht : t ∈ t0 :: rest) (hndt : (t.map Cell.coord).Nodup) (hc : c ∈ t0)
+    (hmiss : c.coord ∉ t.map Cell.coord) :
+    ∃ e, blend (t0 :: rest) w method idx = .error e :=
+  blend_missing_coord_error hnd hs ht hndt hc hmiss
+
+/-- **blend_refuses_unequal_scalars.** Lifted to `blend`: with method mixture, if at the coordinate of the `n`-th
+cell of the canonical first triangle the inputs (found by coordinate, `Spec.C16.cellsAt`) carry for one of its
+fields a scalar first, values of the same type after it and one of them differs, `blend` returns an error. -/
+theorem blend_refuses_unequal_scalars {t0 : List Cell} {rest : List (List Cell)} {w : Weights}
+    {method : String} {idx : Nat → String → List Nat} {cs : List Cell} {f : String} {v0 x : Val}
+    {restv : List Val} {n : Nat} (hm : parseMethod method = some .mixture)
+    (hnd : ∀ t ∈ t0 :: rest, (t.map Cell.coord).Nodup) (hs : t0.Pairwise (fun a b => Cell.le a b))
+    (hn : n < t0.length) (hcs : Spec.C16.cellsAt (t0 :: rest) (t0[n]).coord = some cs)
+    (hf : f ∈ (t0[n]).values.keys) (hvals : fieldVals cs f = v0 :: restv)
+    (hsc : isScalar v0 = true) (hty : restv.all (sameType v0) = true) (hx : x ∈ restv) (hne : x ≠ v0) :
+    ∃ e, blend (t0 :: rest) w method idx = .error e :=
+  blend_unequal_scalars_error hm hnd hs hn hcs hf hvals hsc hty hx hne
+
 /-! ### 7. the values of the result, composed through the loop -/
 
 /-- **blend_value_composed.** On a canonical first triangle, output cell `n` is obtained from the
@@ -287,6 +315,34 @@ theorem spec_mixture {t0 : List Cell} {rest : List (List Cell)} {w : Weights}
     (hidx : ∀ n f i, (idx n f).getD i 0 < (t0 :: rest).length) :
     Spec.C16.mixtureMembership (t0 :: rest) out = true :=
   mixtureMembership_model h hm hnd hs hidx
+
+/-- **spec_convex.** `Spec.C16.convexOk … 0` is true of the model's linear blend whenever the weight vector of
+every cell (read straight from the argument: `1/M`, the list, the dictionary's column) is non-negative and sums to
+one: every sample of every field of every OUTPUT cell lies between the minimum and the maximum of the inputs'
+samples at that coordinate and position. -/
+theorem spec_convex {t0 : List Cell} {rest : List (List Cell)} {w : Weights}
+    {method : String} {idx : Nat → String → List Nat} {out : List Cell}
+    (h : blend (t0 :: rest) w method idx = .ok out) (hm : parseMethod method = some .linear)
+    (hnd : ∀ t ∈ t0 :: rest, (t.map Cell.coord).Nodup) (hs : t0.Pairwise (fun a b => Cell.le a b))
+    (hconv : ∀ n < t0.length, (∀ x ∈ Spec.C16.specWeights w n (t0 :: rest).length, 0 ≤ x) ∧
+      sumW (Spec.C16.specWeights w n (t0 :: rest).length) = 1) :
+    Spec.C16.convexOk (t0 :: rest) out 0 = true :=
+  convexOk_model h hm hnd hs hconv
+
+/-- **spec_agree.** `Spec.C16.agreeOk … 0` is true of the model's linear blend of copies of one canonical
+triangle with weights summing to one per cell: the OUTPUT carries the common value, sample by sample. -/
+theorem spec_agree {t0 : List Cell} {rest : List (List Cell)} {w : Weights}
+    {method : String} {idx : Nat → String → List Nat} {out : List Cell}
+    (h : blend (t0 :: rest) w method idx = .ok out) (hm : parseMethod method = some .linear)
+    (hnd : (t0.map Cell.coord).Nodup) (hs : t0.Pairwise (fun a b => Cell.le a b))
+    (hagree : ∀ t ∈ rest, t = t0)
+    (hsum : ∀ n < t0.length, sumW (Spec.C16.specWeights w n (t0 :: rest).length) = 1) :
+    Spec.C16.agreeOk (t0 :: rest) out 0 = true :=
+  agreeOk_model h hm hnd hs hagree hsum
+
+/-- non-vacuity of `h : blend … = .ok out`: two triangles of two cells (scalar against 2-sample array, in either
+order), weights 1/4, 3/4, linear — `blend` succeeds in the model with values `[7, 10]` and `[2, 4]` -/
+example : blend [blExA, blExB] (.list [1/4, 3/4]) "linear" (fun _ _ => []) = .ok blExOut := blEx_blend
 
 /-- field level: the per-field predicates on the per-field model -/
 theorem spec_linear_field {vals : List Val} {w : List Rat} {v : Val}
